@@ -1,6 +1,6 @@
 //! C26 correspondence + oracle: the real `gmsol_utils::price::Decimal` conversions, the u128
 //! storage helpers and `pyth_price_value_to_decimal`.
-use gmsol_utils::oracle::pyth_price_value_to_decimal;
+use gmsol_utils::oracle::{pyth_price_value_to_decimal, pyth_price_with_confidence_to_price};
 use gmsol_utils::price::decimal::DecimalError;
 use gmsol_utils::price::{convert_to_u128_storage, find_divisor_decimals, Decimal, U192};
 use gmsol_utils::token_config::TokenConfig;
@@ -37,6 +37,18 @@ fn exec_inner(t: &[&str]) -> Option<String> {
         }
         ("finddiv", 3) => format!("ok {}", find_divisor_decimals(&u192(t[2])?)),
         ("conv", 4) => { let d: u8 = t[3].parse().ok()?; match convert_to_u128_storage(u192(t[2])?, d) { Some((v, d2)) => format!("ok {v} {d2}"), None => "none".into() } }
+        ("pythc", 7) => {
+            let pr: i64 = t[2].parse().ok()?; let cf: u64 = t[3].parse().ok()?; let e: i32 = t[4].parse().ok()?; let td: u8 = t[5].parse().ok()?; let q: u8 = t[6].parse().ok()?;
+            let mut cfg: TokenConfig = bytemuck::Zeroable::zeroed();
+            cfg.token_decimals = td; cfg.precision = q;
+            match pyth_price_with_confidence_to_price(pr, cf, e, &cfg) {
+                Ok(p) => format!("ok {} {} {} {}", p.min.value, p.min.decimal_multiplier, p.max.value, p.max.decimal_multiplier),
+                Err(gmsol_utils::oracle::OracleError::InvalidPriceFeedPrice(m)) => format!("err {}", match m {
+                    "mid_price" => "MidPrice", "min_price" => "MinPrice", "max_price" => "MaxPrice",
+                    "exponent too small" => "ExponentTooSmall", "exponent too big" => "ExponentTooBig", "price overflow" => "PriceOverflow",
+                    "converting to Decimal" => "Converting", _ => "Other" }),
+            }
+        }
         ("pyth", 6) => {
             let v: u64 = t[2].parse().ok()?; let e: i32 = t[3].parse().ok()?; let td: u8 = t[4].parse().ok()?; let q: u8 = t[5].parse().ok()?;
             let mut cfg: TokenConfig = bytemuck::Zeroable::zeroed();
@@ -128,6 +140,27 @@ fn oracle(req: &str, resp: &str) -> Result<Option<&'static str>, String> {
                 None => { if &n / p10(d) < two128 && d >= 20 { return Err("None although enough decimals".into()); } Ok(Some("conv.none")) }
             }
         }
+        "pythc" => {
+            // exact: the bounds are price ∓ confidence; a NEGATIVE lower bound cannot be represented and must be an error (never clamped)
+            use num_bigint::BigInt;
+            let pr: BigInt = t[2].parse().unwrap(); let cf: BigInt = t[3].parse().unwrap(); let e: i64 = t[4].parse().unwrap();
+            let (td, q): (u32, u32) = (t[5].parse().unwrap(), t[6].parse().unwrap());
+            if resp == "panic" { return Err("pyth_price_with_confidence_to_price panicked".into()); }
+            let lo = &pr - &cf; let hi = &pr + &cf;
+            let neg = lo < BigInt::from(0u8);
+            let r = resp.strip_prefix("ok ").map(|x| x.split(' ').map(|y| y.parse::<BigUint>().unwrap()).collect::<Vec<_>>());
+            match r {
+                Some(f) => {
+                    if neg { return Err(format!("confidence exceeds the price (exact lower bound {lo} < 0) but a price was returned (min {})", f[0])); }
+                    if td > 20 || q > 20 || td + q > 20 { return Err("pythc: unsupported decimals accepted".into()); }
+                    let conv = |v: &BigInt| -> BigUint { let v = v.to_biguint().unwrap(); if e <= 0 { if -e > 60 { BigUint::from(0u8) } else { &v * p10(q) / p10((-e) as u32) } } else { &v * p10(e as u32) * p10(q) } };
+                    if f[0] != conv(&lo) || f[2] != conv(&hi) { return Err("pythc: bounds are not the floors of the exact price ∓ confidence".into()); }
+                    if f[0] > f[2] { return Err("pythc: min > max".into()); }
+                    Ok(Some("pythc.ok"))
+                }
+                None => Ok(Some(if neg { "pythc.err.negative-lower-bound" } else { "pythc.err.other" })),
+            }
+        }
         "pyth" => {
             let v: BigUint = t[2].parse().unwrap(); let e: i64 = t[3].parse().unwrap(); let (td, q): (u32, u32) = (t[4].parse().unwrap(), t[5].parse().unwrap());
             if resp == "panic" { return Err("pyth_price_value_to_decimal panicked".into()); }
@@ -190,6 +223,13 @@ fn gen_req(r: &mut Rng, from_counter: &mut u64, offset: u64) -> String {
             let n = match r.below(4) { 0 => base.clone(), 1 => &base + 1u8, 2 => if base > BigUint::from(0u8) { &base - 1u8 } else { base.clone() }, _ => &base + BigUint::from(r.below(1000)) };
             let n = if n > lim { lim } else { n };
             if r.chance(1, 2) { format!("pdec finddiv {n}") } else { format!("pdec conv {n} {}", if r.chance(1, 2) { 18 + r.below(3) } else { r.below(40) }) } }
+        18 => { // price / confidence pairs around the boundary conf = price
+            let pr: i64 = match r.below(7) { 0 => 0, 1 => r.below(5) as i64, 2 => i64::MAX - r.below(3) as i64, 3 => -(r.below(5) as i64) - 1, 4 => (r.next() >> 1) as i64, _ => r.below(10_000_000_000_000) as i64 };
+            let p = pr.max(0) as u64;
+            let cf: u64 = match r.below(9) { 0 => p.saturating_sub(1), 1 => p, 2 => p.saturating_add(1), 3 => 0, 4 => u64::MAX - r.below(3), 5 => p / 1000, 6 => p.saturating_add(r.below(1000)), 7 => u64::MAX - p, _ => r.next() >> r.below(64) };
+            let e: i64 = match r.below(6) { 0 => r.below(4) as i64, 1 => -(r.below(30) as i64), _ => -(r.below(12) as i64) };
+            let t = r.below(19); let q = r.below(21u64.saturating_sub(t) + 1).min(20);
+            format!("pdec pythc {pr} {cf} {e} {t} {q}") }
         _ => { let e: i64 = match r.below(8) { 0 => i32::MIN as i64, 1 => i32::MAX as i64, 2 => -(r.below(300) as i64), 3 => r.below(25) as i64, _ => -(r.below(19) as i64) };
             let t = r.below(22); let q = if r.chance(5, 6) { r.below(21u64.saturating_sub(t) + 1) } else { r.below(22) };
             format!("pdec pyth {} {e} {t} {q}", r.num(64)) }
